@@ -134,6 +134,7 @@ def run(ctx):
 
     placeholder_guard(ctx, "R01-d")
     float_dot_siblings(ctx, "R01-e")
+    singleton_tuple_comma(ctx, "R01-f")
     C = r.rule("R01-c", "no defaulted sub-rewrite: a RewriteResult / Option<String> returned by a Rewrite method is never turned into "
                         "an empty string (unwrap_or_default, unwrap_or(String::new()), unwrap_or_else(|_| String::new()))")
     latent = {e["fn"]: e["reason"] for e in tab.get("defaulted", [])}
@@ -258,3 +259,71 @@ def float_dot_siblings(ctx, rid):
                     "the text predicted for a float literal is computed differently from the text printed: the two can "
                     "disagree (digit separators, exponents), and a literal printed with a trailing `.` then fuses with a "
                     "following `.method()` or `..` into other tokens", ["%s:%d" % (b.file, b.line), "%s:%d" % (a.file, a.line)])
+
+
+def singleton_tuple_comma(ctx, rid):
+    from absint import explore, vkey, TooManyPaths
+    """R01-f: a one-element tuple keeps the comma that makes it a tuple"""
+    p, r = ctx.p, ctx.r
+    r.rule(rid, "expr::rewrite_tuple / rewrite_tuple_in_visual_indent_style: on every returning path on which the parameter "
+                "is_singleton_tuple is true (outside macros, where the source text decides), the text is produced with a forced "
+                "trailing separator — rewrite_with_parens(.., Some(SeparatorTactic::Always)), the `({},)` format, or a "
+                "ListFormatting with trailing_separator(Always); `(x)` is a parenthesised expression, not a tuple")
+    rt = p.named("rewrite_tuple", within="rustfmt_nightly::expr")
+    rv = p.named("rewrite_tuple_in_visual_indent_style", within="rustfmt_nightly::expr")
+    if rt is None:
+        r.undecidable(rid, "expr::rewrite_tuple not found")
+        return
+    n = 0
+    for f in [x for x in (rt, rv) if x is not None]:
+        names = {}
+        try:
+            paths = explore(f, pure=lambda c: True, max_paths=20000)
+        except TooManyPaths as e:
+            r.undecidable(rid, str(e))
+            return
+        r.paths(rid, len(paths))
+        # which parameter is the flag: the bool one
+        flag = ["arg%d" % i for i in range(1, f.argc + 1) if f.locals[i] == "bool"]
+        if len(flag) != 1:
+            r.undecidable(rid, "%s: cannot identify the is_singleton_tuple parameter (%s)" % (short(f.id), flag))
+            return
+        flag = flag[0]
+        for path in paths:
+            if path.end != "ret" or path.ret is None:
+                continue
+            d = {k: v for k, v in path.decisions}
+            if d.get(flag) is not True:
+                continue
+            if any("inside_macro(" in k and v is True for k, v in path.decisions):
+                continue
+            ret = vkey(path.ret)
+            if ret.startswith("residual("):
+                continue
+            n += 1
+            forced = False
+            if "rewrite_with_parens(" in ret and ret.rstrip(")").endswith("Some(Always"):
+                forced = True
+            if "rewrite_tuple_in_visual_indent_style(" in ret and ret.rstrip(")").endswith(flag):
+                forced = True        # delegated with the flag intact; the callee is checked on its own
+            if "trailing_separator(" in ret and "Always" in ret:
+                forced = True
+            if "Result::<T, E>::map(" in ret or "Option::<T>::map(" in ret:
+                for g in p.closures_of(f):
+                    try:
+                        for gp in explore(g, pure=lambda c: True, max_paths=200):
+                            if gp.ret is not None and ',)"' in vkey(gp.ret):
+                                forced = True
+                    except TooManyPaths:
+                        pass
+            if ',)"' in ret:
+                forced = True
+            key = "%s[singleton] → %s" % (short(f.id), "forced comma" if forced else "no forced comma")
+            r.instance(rid, key, "ok" if forced else "violation", "%s:%d" % (f.file, f.line))
+            if not forced:
+                r.violation(rid, "%s: a singleton tuple can be written without its comma" % short(f.id),
+                            "on a path with is_singleton_tuple = true (%s) the result is %s: nothing forces the trailing comma, "
+                            "so `(x,)` / `(T,)` can come out as `(x)` / `(T)` — a different expression / type"
+                            % ([(k[-40:], v) for k, v in path.decisions if "tracing" not in k and "Level" not in k][:4], short(ret)[:120]),
+                            ["%s:%d" % (f.file, f.line)])
+    r.floor(rid, n, 2, "singleton paths of the tuple rewriters")
